@@ -524,15 +524,17 @@ class Reach:
 
     TOOL = 4
 
-    def __init__(self):
+    def __init__(self, serializer=True):
         import sys
         pt, pp, Mod, Interval, PFE = _mods()
         from peptacular import util
         P = pp._ProFormaParser
         funcs = [P.parse, P._parse_sequence_start, P._parse_sequence_middle, P._parse_sequence_end, P._parse_char,
                  P._parse_modifications, P._parse_modification, P._parse_integer, P._add_internal_mod, P._add_interval,
-                 P._get_result, pp.parse, pp._is_unmodified, pp._serialize_annotation_start, pp._serialize_annotation_middle,
-                 pp._serialize_annotation_end, pp.MultiProFormaAnnotation.serialize, Mod.serialize, util.convert_type]
+                 P._get_result, pp.parse, pp._is_unmodified, util.convert_type]
+        if serializer:
+            funcs += [pp._serialize_annotation_start, pp._serialize_annotation_middle, pp._serialize_annotation_end,
+                      pp.MultiProFormaAnnotation.serialize, Mod.serialize]
         self.codes = {}
         for f in funcs:
             f = getattr(f, '__wrapped__', f)
